@@ -258,6 +258,9 @@ pub enum Step {
     Eof,
     /// Advance virtual time by `ms`.
     Advance { ms: u32 },
+    /// Consume up to `n` packet identifiers cheaply: QoS 1 publishes that the client refuses
+    /// locally because its send window / in-flight slots are exhausted (skipped while it can publish).
+    Burn { n: u32 },
 }
 
 #[derive(Clone, Debug, PartialEq, Eq, Hash, Serialize, Deserialize)]
